@@ -363,7 +363,14 @@ func TestC10(t *testing.T) {
 		n := rapid.IntRange(1, 5).Draw(t, "nothers")
 		var recs []hx.RecSpec
 		for i := 0; i < n; i++ {
-			switch rapid.IntRange(0, 5).Draw(t, "okind") {
+			switch rapid.IntRange(0, 6).Draw(t, "okind") {
+			case 6:
+				// a recipient that contributes no stanza at all (legal), with or without labels
+				sp := &hx.StubSpec{}
+				if rapid.Bool().Draw(t, "silentLabels") {
+					sp.HasLabels, sp.Labels = true, rapid.SampledFrom([][]string{{}, {"postquantum"}, {"a"}}).Draw(t, "labels")
+				}
+				recs = append(recs, hx.RecSpec{Kind: "stub", Stub: sp})
 			case 0:
 				recs = append(recs, hx.RecSpec{Kind: "x25519", Idx: rapid.IntRange(0, 7).Draw(t, "xi")})
 			case 1:
@@ -385,6 +392,33 @@ func TestC10(t *testing.T) {
 			recs = []hx.RecSpec{sc}
 		}
 		return c10Enc{Recs: recs, SameObj: rapid.Bool().Draw(t, "sameObj")}
+	}, enc)
+
+	// every list of up to three stanza-less recipients around a passphrase recipient
+	pbt.Each(s, "encrypt-mixed", func(yield func(c10Enc)) {
+		silent := []hx.RecSpec{{Kind: "stub", Stub: &hx.StubSpec{}}, {Kind: "stub", Stub: &hx.StubSpec{HasLabels: true, Labels: []string{}}}, {Kind: "stub", Stub: &hx.StubSpec{HasLabels: true, Labels: []string{"postquantum"}}}}
+		sc := hx.RecSpec{Kind: "scrypt", Pass: "pw", WF: 1}
+		n := 0
+		for before := 0; before <= 2; before++ {
+			for after := 0; after <= 1; after++ {
+				if before+after == 0 {
+					continue
+				}
+				for k := range silent {
+					var recs []hx.RecSpec
+					for i := 0; i < before; i++ {
+						recs = append(recs, silent[(k+i)%3])
+					}
+					recs = append(recs, sc)
+					for i := 0; i < after; i++ {
+						recs = append(recs, silent[(k+i)%3])
+					}
+					yield(c10Enc{Recs: recs})
+					n++
+				}
+			}
+		}
+		s.St.Exhaust("a passphrase recipient with 1-3 recipients that contribute no stanza (no labels, empty labels, a label) before and after it", int64(n))
 	}, enc)
 
 	// headers: scrypt stanza at every position among 1..5 stanzas, exhaustive over a small pool
